@@ -15,30 +15,28 @@ open EPV EPV.Gen EPV.Spec
 
 namespace EPV.C02
 
-/-- `energy_noh_residual`, symmetry 0 (unknowns (ρ, P, D), shocked energy e(ρ, P)): the residual vanishes exactly when the shocked state at rest and the
-incoming gas (density ρ₀ (1 - u₀/D)^0 at the front) satisfy the three Rankine–Hugoniot conditions with front speed D -/
-theorem energyS0_zero_iff_jump (s : EOS) (ic : NohIC) (ρ x D : ℝ) (hic : ic.Admissible 0) (hρ : ρ ≠ 0) (hD : D ≠ 0) :
-    (∀ i, C16.EnergyS0.F s ic ρ x D i = 0) ↔ StagnationShock ic 0 (s.e ic.rho_0 ic.P_0) ρ x (s.e ρ x) D := by
+/-- `energy_noh_residual`, symmetry 0: the defects of the three jump conditions (flux behind minus flux ahead of the front)
+are these fixed combinations of the components of `F` — exact identities, any EOS -/
+theorem energyS0_jump_defects (s : EOS) (ic : NohIC) (ρ x D : ℝ) (hic : ic.Admissible 0) (hρ : ρ ≠ 0) (hD : D ≠ 0) :
+    (shockedState ρ x (s.e ρ x)).massFlux D - (incomingState ic 0 (s.e ic.rho_0 ic.P_0) D).massFlux D = -D * C16.EnergyS0.F s ic ρ x D 0
+    ∧ (shockedState ρ x (s.e ρ x)).momFlux D - (incomingState ic 0 (s.e ic.rho_0 ic.P_0) D).momFlux D = C16.EnergyS0.F s ic ρ x D 1 - ic.u_0 * D * C16.EnergyS0.F s ic ρ x D 0
+    ∧ (shockedState ρ x (s.e ρ x)).energyFlux D - (incomingState ic 0 (s.e ic.rho_0 ic.P_0) D).energyFlux D = -(ρ * D) * C16.EnergyS0.F s ic ρ x D 2
+        - D * (s.e ic.rho_0 ic.P_0 + ic.u_0 ^ 2 / 2) * C16.EnergyS0.F s ic ρ x D 0 := by
   obtain ⟨hu, hr0, hP0, hm⟩ := hic
   have k0 : ¬ (0 ≤ ic.u_0) := not_le.mpr hu
   have k1 : ¬ (ic.rho_0 ≤ 0) := not_le.mpr hr0
   have k2 : ¬ (ic.P_0 < 0) := not_lt.mpr hP0
   have k3 : True := trivial
+  refine ⟨?_, ?_, ?_⟩ <;>
+    (simp only [C16.EnergyS0.F, shockedState, incomingState, State.massFlux, State.momFlux, State.energyFlux, epv_c16, epv_tree, epv_cond, epv_leaf, hρ, k0, k1, k2, k3, if_true, if_false, lt_self_iff_false, Matrix.of_apply, Matrix.cons_val, Fin.zero_eta, Fin.mk_one, Fin.reduceFinMk, Fin.isValue] <;> field_simp <;> ring)
+
+/-- `energy_noh_residual`, symmetry 0 (unknowns (ρ, P, D), shocked energy e(ρ, P)): the residual vanishes exactly when the shocked state at rest and the
+incoming gas (density ρ₀ (1 - u₀/D)^0 at the front) satisfy the three Rankine–Hugoniot conditions with front speed D -/
+theorem energyS0_zero_iff_jump (s : EOS) (ic : NohIC) (ρ x D : ℝ) (hic : ic.Admissible 0) (hρ : ρ ≠ 0) (hD : D ≠ 0) :
+    (∀ i, C16.EnergyS0.F s ic ρ x D i = 0) ↔ StagnationShock ic 0 (s.e ic.rho_0 ic.P_0) ρ x (s.e ρ x) D := by
+  obtain ⟨hM, hMo, hE⟩ := energyS0_jump_defects s ic ρ x D hic hρ hD
   set a := shockedState ρ x (s.e ρ x) with ha
   set b := incomingState ic 0 (s.e ic.rho_0 ic.P_0) D with hb
-  have hM : a.massFlux D - b.massFlux D = -D * C16.EnergyS0.F s ic ρ x D 0 := by
-    simp only [C16.EnergyS0.F, ha, hb, shockedState, incomingState, State.massFlux, State.momFlux, State.energyFlux, epv_c16, epv_tree, epv_cond, epv_leaf, hρ, k0, k1, k2, k3, if_true, if_false, lt_self_iff_false, Matrix.of_apply, Matrix.cons_val, Fin.zero_eta, Fin.mk_one, Fin.reduceFinMk, Fin.isValue]
-    field_simp
-    ring
-  have hMo : a.momFlux D - b.momFlux D = C16.EnergyS0.F s ic ρ x D 1 - ic.u_0 * D * C16.EnergyS0.F s ic ρ x D 0 := by
-    simp only [C16.EnergyS0.F, ha, hb, shockedState, incomingState, State.massFlux, State.momFlux, State.energyFlux, epv_c16, epv_tree, epv_cond, epv_leaf, hρ, k0, k1, k2, k3, if_true, if_false, lt_self_iff_false, Matrix.of_apply, Matrix.cons_val, Fin.zero_eta, Fin.mk_one, Fin.reduceFinMk, Fin.isValue]
-    field_simp
-    ring
-  have hE : a.energyFlux D - b.energyFlux D = -(ρ * D) * C16.EnergyS0.F s ic ρ x D 2
-      - D * (s.e ic.rho_0 ic.P_0 + ic.u_0 ^ 2 / 2) * C16.EnergyS0.F s ic ρ x D 0 := by
-    simp only [C16.EnergyS0.F, ha, hb, shockedState, incomingState, State.massFlux, State.momFlux, State.energyFlux, epv_c16, epv_tree, epv_cond, epv_leaf, hρ, k0, k1, k2, k3, if_true, if_false, lt_self_iff_false, Matrix.of_apply, Matrix.cons_val, Fin.zero_eta, Fin.mk_one, Fin.reduceFinMk, Fin.isValue]
-    field_simp
-    ring
   unfold StagnationShock RankineHugoniot
   constructor
   · intro h
@@ -66,31 +64,29 @@ theorem energyS0_zero_iff_jump (s : EOS) (ic : NohIC) (ρ x D : ℝ) (hic : ic.A
     · exact f1
     · exact f2
 
-/-- `energy_noh_residual`, symmetry 1 (unknowns (ρ, P, D), shocked energy e(ρ, P)): the residual vanishes exactly when the shocked state at rest and the
-incoming gas (density ρ₀ (1 - u₀/D)^1 at the front) satisfy the three Rankine–Hugoniot conditions with front speed D -/
-theorem energyS1_zero_iff_jump (s : EOS) (ic : NohIC) (ρ x D : ℝ) (hic : ic.Admissible 1) (hρ : ρ ≠ 0) (hD : D ≠ 0) :
-    (∀ i, C16.EnergyS1.F s ic ρ x D i = 0) ↔ StagnationShock ic 1 (s.e ic.rho_0 ic.P_0) ρ x (s.e ρ x) D := by
+/-- `energy_noh_residual`, symmetry 1: the defects of the three jump conditions (flux behind minus flux ahead of the front)
+are these fixed combinations of the components of `F` — exact identities, any EOS -/
+theorem energyS1_jump_defects (s : EOS) (ic : NohIC) (ρ x D : ℝ) (hic : ic.Admissible 1) (hρ : ρ ≠ 0) (hD : D ≠ 0) :
+    (shockedState ρ x (s.e ρ x)).massFlux D - (incomingState ic 1 (s.e ic.rho_0 ic.P_0) D).massFlux D = -D * C16.EnergyS1.F s ic ρ x D 0
+    ∧ (shockedState ρ x (s.e ρ x)).momFlux D - (incomingState ic 1 (s.e ic.rho_0 ic.P_0) D).momFlux D = C16.EnergyS1.F s ic ρ x D 1 - ic.u_0 * D * C16.EnergyS1.F s ic ρ x D 0
+    ∧ (shockedState ρ x (s.e ρ x)).energyFlux D - (incomingState ic 1 (s.e ic.rho_0 ic.P_0) D).energyFlux D = -(ρ * D) * C16.EnergyS1.F s ic ρ x D 2
+        - D * (s.e ic.rho_0 ic.P_0 + ic.u_0 ^ 2 / 2) * C16.EnergyS1.F s ic ρ x D 0 := by
   obtain ⟨hu, hr0, hP0, hm⟩ := hic
   have k0 : ¬ (0 ≤ ic.u_0) := not_le.mpr hu
   have k1 : ¬ (ic.rho_0 ≤ 0) := not_le.mpr hr0
   have k2 : ¬ (ic.P_0 < 0) := not_lt.mpr hP0
   have hPz : ic.P_0 = 0 := hm (by norm_num)
   have k3 := eq_true hPz
+  refine ⟨?_, ?_, ?_⟩ <;>
+    (simp only [C16.EnergyS1.F, shockedState, incomingState, State.massFlux, State.momFlux, State.energyFlux, epv_c16, epv_tree, epv_cond, epv_leaf, hρ, k0, k1, k2, k3, if_true, if_false, lt_self_iff_false, Matrix.of_apply, Matrix.cons_val, Fin.zero_eta, Fin.mk_one, Fin.reduceFinMk, Fin.isValue] <;> field_simp <;> ring)
+
+/-- `energy_noh_residual`, symmetry 1 (unknowns (ρ, P, D), shocked energy e(ρ, P)): the residual vanishes exactly when the shocked state at rest and the
+incoming gas (density ρ₀ (1 - u₀/D)^1 at the front) satisfy the three Rankine–Hugoniot conditions with front speed D -/
+theorem energyS1_zero_iff_jump (s : EOS) (ic : NohIC) (ρ x D : ℝ) (hic : ic.Admissible 1) (hρ : ρ ≠ 0) (hD : D ≠ 0) :
+    (∀ i, C16.EnergyS1.F s ic ρ x D i = 0) ↔ StagnationShock ic 1 (s.e ic.rho_0 ic.P_0) ρ x (s.e ρ x) D := by
+  obtain ⟨hM, hMo, hE⟩ := energyS1_jump_defects s ic ρ x D hic hρ hD
   set a := shockedState ρ x (s.e ρ x) with ha
   set b := incomingState ic 1 (s.e ic.rho_0 ic.P_0) D with hb
-  have hM : a.massFlux D - b.massFlux D = -D * C16.EnergyS1.F s ic ρ x D 0 := by
-    simp only [C16.EnergyS1.F, ha, hb, shockedState, incomingState, State.massFlux, State.momFlux, State.energyFlux, epv_c16, epv_tree, epv_cond, epv_leaf, hρ, k0, k1, k2, k3, if_true, if_false, lt_self_iff_false, Matrix.of_apply, Matrix.cons_val, Fin.zero_eta, Fin.mk_one, Fin.reduceFinMk, Fin.isValue]
-    field_simp
-    ring
-  have hMo : a.momFlux D - b.momFlux D = C16.EnergyS1.F s ic ρ x D 1 - ic.u_0 * D * C16.EnergyS1.F s ic ρ x D 0 := by
-    simp only [C16.EnergyS1.F, ha, hb, shockedState, incomingState, State.massFlux, State.momFlux, State.energyFlux, epv_c16, epv_tree, epv_cond, epv_leaf, hρ, k0, k1, k2, k3, if_true, if_false, lt_self_iff_false, Matrix.of_apply, Matrix.cons_val, Fin.zero_eta, Fin.mk_one, Fin.reduceFinMk, Fin.isValue]
-    field_simp
-    ring
-  have hE : a.energyFlux D - b.energyFlux D = -(ρ * D) * C16.EnergyS1.F s ic ρ x D 2
-      - D * (s.e ic.rho_0 ic.P_0 + ic.u_0 ^ 2 / 2) * C16.EnergyS1.F s ic ρ x D 0 := by
-    simp only [C16.EnergyS1.F, ha, hb, shockedState, incomingState, State.massFlux, State.momFlux, State.energyFlux, epv_c16, epv_tree, epv_cond, epv_leaf, hρ, k0, k1, k2, k3, if_true, if_false, lt_self_iff_false, Matrix.of_apply, Matrix.cons_val, Fin.zero_eta, Fin.mk_one, Fin.reduceFinMk, Fin.isValue]
-    field_simp
-    ring
   unfold StagnationShock RankineHugoniot
   constructor
   · intro h
@@ -118,31 +114,29 @@ theorem energyS1_zero_iff_jump (s : EOS) (ic : NohIC) (ρ x D : ℝ) (hic : ic.A
     · exact f1
     · exact f2
 
-/-- `energy_noh_residual`, symmetry 2 (unknowns (ρ, P, D), shocked energy e(ρ, P)): the residual vanishes exactly when the shocked state at rest and the
-incoming gas (density ρ₀ (1 - u₀/D)^2 at the front) satisfy the three Rankine–Hugoniot conditions with front speed D -/
-theorem energyS2_zero_iff_jump (s : EOS) (ic : NohIC) (ρ x D : ℝ) (hic : ic.Admissible 2) (hρ : ρ ≠ 0) (hD : D ≠ 0) :
-    (∀ i, C16.EnergyS2.F s ic ρ x D i = 0) ↔ StagnationShock ic 2 (s.e ic.rho_0 ic.P_0) ρ x (s.e ρ x) D := by
+/-- `energy_noh_residual`, symmetry 2: the defects of the three jump conditions (flux behind minus flux ahead of the front)
+are these fixed combinations of the components of `F` — exact identities, any EOS -/
+theorem energyS2_jump_defects (s : EOS) (ic : NohIC) (ρ x D : ℝ) (hic : ic.Admissible 2) (hρ : ρ ≠ 0) (hD : D ≠ 0) :
+    (shockedState ρ x (s.e ρ x)).massFlux D - (incomingState ic 2 (s.e ic.rho_0 ic.P_0) D).massFlux D = -D * C16.EnergyS2.F s ic ρ x D 0
+    ∧ (shockedState ρ x (s.e ρ x)).momFlux D - (incomingState ic 2 (s.e ic.rho_0 ic.P_0) D).momFlux D = C16.EnergyS2.F s ic ρ x D 1 - ic.u_0 * D * C16.EnergyS2.F s ic ρ x D 0
+    ∧ (shockedState ρ x (s.e ρ x)).energyFlux D - (incomingState ic 2 (s.e ic.rho_0 ic.P_0) D).energyFlux D = -(ρ * D) * C16.EnergyS2.F s ic ρ x D 2
+        - D * (s.e ic.rho_0 ic.P_0 + ic.u_0 ^ 2 / 2) * C16.EnergyS2.F s ic ρ x D 0 := by
   obtain ⟨hu, hr0, hP0, hm⟩ := hic
   have k0 : ¬ (0 ≤ ic.u_0) := not_le.mpr hu
   have k1 : ¬ (ic.rho_0 ≤ 0) := not_le.mpr hr0
   have k2 : ¬ (ic.P_0 < 0) := not_lt.mpr hP0
   have hPz : ic.P_0 = 0 := hm (by norm_num)
   have k3 := eq_true hPz
+  refine ⟨?_, ?_, ?_⟩ <;>
+    (simp only [C16.EnergyS2.F, shockedState, incomingState, State.massFlux, State.momFlux, State.energyFlux, epv_c16, epv_tree, epv_cond, epv_leaf, hρ, k0, k1, k2, k3, if_true, if_false, lt_self_iff_false, Matrix.of_apply, Matrix.cons_val, Fin.zero_eta, Fin.mk_one, Fin.reduceFinMk, Fin.isValue] <;> field_simp <;> ring)
+
+/-- `energy_noh_residual`, symmetry 2 (unknowns (ρ, P, D), shocked energy e(ρ, P)): the residual vanishes exactly when the shocked state at rest and the
+incoming gas (density ρ₀ (1 - u₀/D)^2 at the front) satisfy the three Rankine–Hugoniot conditions with front speed D -/
+theorem energyS2_zero_iff_jump (s : EOS) (ic : NohIC) (ρ x D : ℝ) (hic : ic.Admissible 2) (hρ : ρ ≠ 0) (hD : D ≠ 0) :
+    (∀ i, C16.EnergyS2.F s ic ρ x D i = 0) ↔ StagnationShock ic 2 (s.e ic.rho_0 ic.P_0) ρ x (s.e ρ x) D := by
+  obtain ⟨hM, hMo, hE⟩ := energyS2_jump_defects s ic ρ x D hic hρ hD
   set a := shockedState ρ x (s.e ρ x) with ha
   set b := incomingState ic 2 (s.e ic.rho_0 ic.P_0) D with hb
-  have hM : a.massFlux D - b.massFlux D = -D * C16.EnergyS2.F s ic ρ x D 0 := by
-    simp only [C16.EnergyS2.F, ha, hb, shockedState, incomingState, State.massFlux, State.momFlux, State.energyFlux, epv_c16, epv_tree, epv_cond, epv_leaf, hρ, k0, k1, k2, k3, if_true, if_false, lt_self_iff_false, Matrix.of_apply, Matrix.cons_val, Fin.zero_eta, Fin.mk_one, Fin.reduceFinMk, Fin.isValue]
-    field_simp
-    ring
-  have hMo : a.momFlux D - b.momFlux D = C16.EnergyS2.F s ic ρ x D 1 - ic.u_0 * D * C16.EnergyS2.F s ic ρ x D 0 := by
-    simp only [C16.EnergyS2.F, ha, hb, shockedState, incomingState, State.massFlux, State.momFlux, State.energyFlux, epv_c16, epv_tree, epv_cond, epv_leaf, hρ, k0, k1, k2, k3, if_true, if_false, lt_self_iff_false, Matrix.of_apply, Matrix.cons_val, Fin.zero_eta, Fin.mk_one, Fin.reduceFinMk, Fin.isValue]
-    field_simp
-    ring
-  have hE : a.energyFlux D - b.energyFlux D = -(ρ * D) * C16.EnergyS2.F s ic ρ x D 2
-      - D * (s.e ic.rho_0 ic.P_0 + ic.u_0 ^ 2 / 2) * C16.EnergyS2.F s ic ρ x D 0 := by
-    simp only [C16.EnergyS2.F, ha, hb, shockedState, incomingState, State.massFlux, State.momFlux, State.energyFlux, epv_c16, epv_tree, epv_cond, epv_leaf, hρ, k0, k1, k2, k3, if_true, if_false, lt_self_iff_false, Matrix.of_apply, Matrix.cons_val, Fin.zero_eta, Fin.mk_one, Fin.reduceFinMk, Fin.isValue]
-    field_simp
-    ring
   unfold StagnationShock RankineHugoniot
   constructor
   · intro h
@@ -170,30 +164,28 @@ theorem energyS2_zero_iff_jump (s : EOS) (ic : NohIC) (ρ x D : ℝ) (hic : ic.A
     · exact f1
     · exact f2
 
-/-- `pressure_noh_residual`, symmetry 0 (unknowns (ρ, e, D), shocked pressure P(ρ, e)): the residual vanishes exactly when the shocked state at rest and the
-incoming gas (density ρ₀ (1 - u₀/D)^0 at the front) satisfy the three Rankine–Hugoniot conditions with front speed D -/
-theorem pressureS0_zero_iff_jump (s : EOS) (ic : NohIC) (ρ x D : ℝ) (hic : ic.Admissible 0) (hρ : ρ ≠ 0) (hD : D ≠ 0) :
-    (∀ i, C16.PressureS0.F s ic ρ x D i = 0) ↔ StagnationShock ic 0 (s.e ic.rho_0 ic.P_0) ρ (s.P ρ x) x D := by
+/-- `pressure_noh_residual`, symmetry 0: the defects of the three jump conditions (flux behind minus flux ahead of the front)
+are these fixed combinations of the components of `F` — exact identities, any EOS -/
+theorem pressureS0_jump_defects (s : EOS) (ic : NohIC) (ρ x D : ℝ) (hic : ic.Admissible 0) (hρ : ρ ≠ 0) (hD : D ≠ 0) :
+    (shockedState ρ (s.P ρ x) x).massFlux D - (incomingState ic 0 (s.e ic.rho_0 ic.P_0) D).massFlux D = -D * C16.PressureS0.F s ic ρ x D 0
+    ∧ (shockedState ρ (s.P ρ x) x).momFlux D - (incomingState ic 0 (s.e ic.rho_0 ic.P_0) D).momFlux D = C16.PressureS0.F s ic ρ x D 1 - ic.u_0 * D * C16.PressureS0.F s ic ρ x D 0
+    ∧ (shockedState ρ (s.P ρ x) x).energyFlux D - (incomingState ic 0 (s.e ic.rho_0 ic.P_0) D).energyFlux D = -(ρ * D) * C16.PressureS0.F s ic ρ x D 2
+        - D * (s.e ic.rho_0 ic.P_0 + ic.u_0 ^ 2 / 2) * C16.PressureS0.F s ic ρ x D 0 := by
   obtain ⟨hu, hr0, hP0, hm⟩ := hic
   have k0 : ¬ (0 ≤ ic.u_0) := not_le.mpr hu
   have k1 : ¬ (ic.rho_0 ≤ 0) := not_le.mpr hr0
   have k2 : ¬ (ic.P_0 < 0) := not_lt.mpr hP0
   have k3 : True := trivial
+  refine ⟨?_, ?_, ?_⟩ <;>
+    (simp only [C16.PressureS0.F, shockedState, incomingState, State.massFlux, State.momFlux, State.energyFlux, epv_c16, epv_tree, epv_cond, epv_leaf, hρ, k0, k1, k2, k3, if_true, if_false, lt_self_iff_false, Matrix.of_apply, Matrix.cons_val, Fin.zero_eta, Fin.mk_one, Fin.reduceFinMk, Fin.isValue] <;> field_simp <;> ring)
+
+/-- `pressure_noh_residual`, symmetry 0 (unknowns (ρ, e, D), shocked pressure P(ρ, e)): the residual vanishes exactly when the shocked state at rest and the
+incoming gas (density ρ₀ (1 - u₀/D)^0 at the front) satisfy the three Rankine–Hugoniot conditions with front speed D -/
+theorem pressureS0_zero_iff_jump (s : EOS) (ic : NohIC) (ρ x D : ℝ) (hic : ic.Admissible 0) (hρ : ρ ≠ 0) (hD : D ≠ 0) :
+    (∀ i, C16.PressureS0.F s ic ρ x D i = 0) ↔ StagnationShock ic 0 (s.e ic.rho_0 ic.P_0) ρ (s.P ρ x) x D := by
+  obtain ⟨hM, hMo, hE⟩ := pressureS0_jump_defects s ic ρ x D hic hρ hD
   set a := shockedState ρ (s.P ρ x) x with ha
   set b := incomingState ic 0 (s.e ic.rho_0 ic.P_0) D with hb
-  have hM : a.massFlux D - b.massFlux D = -D * C16.PressureS0.F s ic ρ x D 0 := by
-    simp only [C16.PressureS0.F, ha, hb, shockedState, incomingState, State.massFlux, State.momFlux, State.energyFlux, epv_c16, epv_tree, epv_cond, epv_leaf, hρ, k0, k1, k2, k3, if_true, if_false, lt_self_iff_false, Matrix.of_apply, Matrix.cons_val, Fin.zero_eta, Fin.mk_one, Fin.reduceFinMk, Fin.isValue]
-    field_simp
-    ring
-  have hMo : a.momFlux D - b.momFlux D = C16.PressureS0.F s ic ρ x D 1 - ic.u_0 * D * C16.PressureS0.F s ic ρ x D 0 := by
-    simp only [C16.PressureS0.F, ha, hb, shockedState, incomingState, State.massFlux, State.momFlux, State.energyFlux, epv_c16, epv_tree, epv_cond, epv_leaf, hρ, k0, k1, k2, k3, if_true, if_false, lt_self_iff_false, Matrix.of_apply, Matrix.cons_val, Fin.zero_eta, Fin.mk_one, Fin.reduceFinMk, Fin.isValue]
-    field_simp
-    ring
-  have hE : a.energyFlux D - b.energyFlux D = -(ρ * D) * C16.PressureS0.F s ic ρ x D 2
-      - D * (s.e ic.rho_0 ic.P_0 + ic.u_0 ^ 2 / 2) * C16.PressureS0.F s ic ρ x D 0 := by
-    simp only [C16.PressureS0.F, ha, hb, shockedState, incomingState, State.massFlux, State.momFlux, State.energyFlux, epv_c16, epv_tree, epv_cond, epv_leaf, hρ, k0, k1, k2, k3, if_true, if_false, lt_self_iff_false, Matrix.of_apply, Matrix.cons_val, Fin.zero_eta, Fin.mk_one, Fin.reduceFinMk, Fin.isValue]
-    field_simp
-    ring
   unfold StagnationShock RankineHugoniot
   constructor
   · intro h
@@ -221,31 +213,29 @@ theorem pressureS0_zero_iff_jump (s : EOS) (ic : NohIC) (ρ x D : ℝ) (hic : ic
     · exact f1
     · exact f2
 
-/-- `pressure_noh_residual`, symmetry 1 (unknowns (ρ, e, D), shocked pressure P(ρ, e)): the residual vanishes exactly when the shocked state at rest and the
-incoming gas (density ρ₀ (1 - u₀/D)^1 at the front) satisfy the three Rankine–Hugoniot conditions with front speed D -/
-theorem pressureS1_zero_iff_jump (s : EOS) (ic : NohIC) (ρ x D : ℝ) (hic : ic.Admissible 1) (hρ : ρ ≠ 0) (hD : D ≠ 0) :
-    (∀ i, C16.PressureS1.F s ic ρ x D i = 0) ↔ StagnationShock ic 1 (s.e ic.rho_0 ic.P_0) ρ (s.P ρ x) x D := by
+/-- `pressure_noh_residual`, symmetry 1: the defects of the three jump conditions (flux behind minus flux ahead of the front)
+are these fixed combinations of the components of `F` — exact identities, any EOS -/
+theorem pressureS1_jump_defects (s : EOS) (ic : NohIC) (ρ x D : ℝ) (hic : ic.Admissible 1) (hρ : ρ ≠ 0) (hD : D ≠ 0) :
+    (shockedState ρ (s.P ρ x) x).massFlux D - (incomingState ic 1 (s.e ic.rho_0 ic.P_0) D).massFlux D = -D * C16.PressureS1.F s ic ρ x D 0
+    ∧ (shockedState ρ (s.P ρ x) x).momFlux D - (incomingState ic 1 (s.e ic.rho_0 ic.P_0) D).momFlux D = C16.PressureS1.F s ic ρ x D 1 - ic.u_0 * D * C16.PressureS1.F s ic ρ x D 0
+    ∧ (shockedState ρ (s.P ρ x) x).energyFlux D - (incomingState ic 1 (s.e ic.rho_0 ic.P_0) D).energyFlux D = -(ρ * D) * C16.PressureS1.F s ic ρ x D 2
+        - D * (s.e ic.rho_0 ic.P_0 + ic.u_0 ^ 2 / 2) * C16.PressureS1.F s ic ρ x D 0 := by
   obtain ⟨hu, hr0, hP0, hm⟩ := hic
   have k0 : ¬ (0 ≤ ic.u_0) := not_le.mpr hu
   have k1 : ¬ (ic.rho_0 ≤ 0) := not_le.mpr hr0
   have k2 : ¬ (ic.P_0 < 0) := not_lt.mpr hP0
   have hPz : ic.P_0 = 0 := hm (by norm_num)
   have k3 := eq_true hPz
+  refine ⟨?_, ?_, ?_⟩ <;>
+    (simp only [C16.PressureS1.F, shockedState, incomingState, State.massFlux, State.momFlux, State.energyFlux, epv_c16, epv_tree, epv_cond, epv_leaf, hρ, k0, k1, k2, k3, if_true, if_false, lt_self_iff_false, Matrix.of_apply, Matrix.cons_val, Fin.zero_eta, Fin.mk_one, Fin.reduceFinMk, Fin.isValue] <;> field_simp <;> ring)
+
+/-- `pressure_noh_residual`, symmetry 1 (unknowns (ρ, e, D), shocked pressure P(ρ, e)): the residual vanishes exactly when the shocked state at rest and the
+incoming gas (density ρ₀ (1 - u₀/D)^1 at the front) satisfy the three Rankine–Hugoniot conditions with front speed D -/
+theorem pressureS1_zero_iff_jump (s : EOS) (ic : NohIC) (ρ x D : ℝ) (hic : ic.Admissible 1) (hρ : ρ ≠ 0) (hD : D ≠ 0) :
+    (∀ i, C16.PressureS1.F s ic ρ x D i = 0) ↔ StagnationShock ic 1 (s.e ic.rho_0 ic.P_0) ρ (s.P ρ x) x D := by
+  obtain ⟨hM, hMo, hE⟩ := pressureS1_jump_defects s ic ρ x D hic hρ hD
   set a := shockedState ρ (s.P ρ x) x with ha
   set b := incomingState ic 1 (s.e ic.rho_0 ic.P_0) D with hb
-  have hM : a.massFlux D - b.massFlux D = -D * C16.PressureS1.F s ic ρ x D 0 := by
-    simp only [C16.PressureS1.F, ha, hb, shockedState, incomingState, State.massFlux, State.momFlux, State.energyFlux, epv_c16, epv_tree, epv_cond, epv_leaf, hρ, k0, k1, k2, k3, if_true, if_false, lt_self_iff_false, Matrix.of_apply, Matrix.cons_val, Fin.zero_eta, Fin.mk_one, Fin.reduceFinMk, Fin.isValue]
-    field_simp
-    ring
-  have hMo : a.momFlux D - b.momFlux D = C16.PressureS1.F s ic ρ x D 1 - ic.u_0 * D * C16.PressureS1.F s ic ρ x D 0 := by
-    simp only [C16.PressureS1.F, ha, hb, shockedState, incomingState, State.massFlux, State.momFlux, State.energyFlux, epv_c16, epv_tree, epv_cond, epv_leaf, hρ, k0, k1, k2, k3, if_true, if_false, lt_self_iff_false, Matrix.of_apply, Matrix.cons_val, Fin.zero_eta, Fin.mk_one, Fin.reduceFinMk, Fin.isValue]
-    field_simp
-    ring
-  have hE : a.energyFlux D - b.energyFlux D = -(ρ * D) * C16.PressureS1.F s ic ρ x D 2
-      - D * (s.e ic.rho_0 ic.P_0 + ic.u_0 ^ 2 / 2) * C16.PressureS1.F s ic ρ x D 0 := by
-    simp only [C16.PressureS1.F, ha, hb, shockedState, incomingState, State.massFlux, State.momFlux, State.energyFlux, epv_c16, epv_tree, epv_cond, epv_leaf, hρ, k0, k1, k2, k3, if_true, if_false, lt_self_iff_false, Matrix.of_apply, Matrix.cons_val, Fin.zero_eta, Fin.mk_one, Fin.reduceFinMk, Fin.isValue]
-    field_simp
-    ring
   unfold StagnationShock RankineHugoniot
   constructor
   · intro h
@@ -273,31 +263,29 @@ theorem pressureS1_zero_iff_jump (s : EOS) (ic : NohIC) (ρ x D : ℝ) (hic : ic
     · exact f1
     · exact f2
 
-/-- `pressure_noh_residual`, symmetry 2 (unknowns (ρ, e, D), shocked pressure P(ρ, e)): the residual vanishes exactly when the shocked state at rest and the
-incoming gas (density ρ₀ (1 - u₀/D)^2 at the front) satisfy the three Rankine–Hugoniot conditions with front speed D -/
-theorem pressureS2_zero_iff_jump (s : EOS) (ic : NohIC) (ρ x D : ℝ) (hic : ic.Admissible 2) (hρ : ρ ≠ 0) (hD : D ≠ 0) :
-    (∀ i, C16.PressureS2.F s ic ρ x D i = 0) ↔ StagnationShock ic 2 (s.e ic.rho_0 ic.P_0) ρ (s.P ρ x) x D := by
+/-- `pressure_noh_residual`, symmetry 2: the defects of the three jump conditions (flux behind minus flux ahead of the front)
+are these fixed combinations of the components of `F` — exact identities, any EOS -/
+theorem pressureS2_jump_defects (s : EOS) (ic : NohIC) (ρ x D : ℝ) (hic : ic.Admissible 2) (hρ : ρ ≠ 0) (hD : D ≠ 0) :
+    (shockedState ρ (s.P ρ x) x).massFlux D - (incomingState ic 2 (s.e ic.rho_0 ic.P_0) D).massFlux D = -D * C16.PressureS2.F s ic ρ x D 0
+    ∧ (shockedState ρ (s.P ρ x) x).momFlux D - (incomingState ic 2 (s.e ic.rho_0 ic.P_0) D).momFlux D = C16.PressureS2.F s ic ρ x D 1 - ic.u_0 * D * C16.PressureS2.F s ic ρ x D 0
+    ∧ (shockedState ρ (s.P ρ x) x).energyFlux D - (incomingState ic 2 (s.e ic.rho_0 ic.P_0) D).energyFlux D = -(ρ * D) * C16.PressureS2.F s ic ρ x D 2
+        - D * (s.e ic.rho_0 ic.P_0 + ic.u_0 ^ 2 / 2) * C16.PressureS2.F s ic ρ x D 0 := by
   obtain ⟨hu, hr0, hP0, hm⟩ := hic
   have k0 : ¬ (0 ≤ ic.u_0) := not_le.mpr hu
   have k1 : ¬ (ic.rho_0 ≤ 0) := not_le.mpr hr0
   have k2 : ¬ (ic.P_0 < 0) := not_lt.mpr hP0
   have hPz : ic.P_0 = 0 := hm (by norm_num)
   have k3 := eq_true hPz
+  refine ⟨?_, ?_, ?_⟩ <;>
+    (simp only [C16.PressureS2.F, shockedState, incomingState, State.massFlux, State.momFlux, State.energyFlux, epv_c16, epv_tree, epv_cond, epv_leaf, hρ, k0, k1, k2, k3, if_true, if_false, lt_self_iff_false, Matrix.of_apply, Matrix.cons_val, Fin.zero_eta, Fin.mk_one, Fin.reduceFinMk, Fin.isValue] <;> field_simp <;> ring)
+
+/-- `pressure_noh_residual`, symmetry 2 (unknowns (ρ, e, D), shocked pressure P(ρ, e)): the residual vanishes exactly when the shocked state at rest and the
+incoming gas (density ρ₀ (1 - u₀/D)^2 at the front) satisfy the three Rankine–Hugoniot conditions with front speed D -/
+theorem pressureS2_zero_iff_jump (s : EOS) (ic : NohIC) (ρ x D : ℝ) (hic : ic.Admissible 2) (hρ : ρ ≠ 0) (hD : D ≠ 0) :
+    (∀ i, C16.PressureS2.F s ic ρ x D i = 0) ↔ StagnationShock ic 2 (s.e ic.rho_0 ic.P_0) ρ (s.P ρ x) x D := by
+  obtain ⟨hM, hMo, hE⟩ := pressureS2_jump_defects s ic ρ x D hic hρ hD
   set a := shockedState ρ (s.P ρ x) x with ha
   set b := incomingState ic 2 (s.e ic.rho_0 ic.P_0) D with hb
-  have hM : a.massFlux D - b.massFlux D = -D * C16.PressureS2.F s ic ρ x D 0 := by
-    simp only [C16.PressureS2.F, ha, hb, shockedState, incomingState, State.massFlux, State.momFlux, State.energyFlux, epv_c16, epv_tree, epv_cond, epv_leaf, hρ, k0, k1, k2, k3, if_true, if_false, lt_self_iff_false, Matrix.of_apply, Matrix.cons_val, Fin.zero_eta, Fin.mk_one, Fin.reduceFinMk, Fin.isValue]
-    field_simp
-    ring
-  have hMo : a.momFlux D - b.momFlux D = C16.PressureS2.F s ic ρ x D 1 - ic.u_0 * D * C16.PressureS2.F s ic ρ x D 0 := by
-    simp only [C16.PressureS2.F, ha, hb, shockedState, incomingState, State.massFlux, State.momFlux, State.energyFlux, epv_c16, epv_tree, epv_cond, epv_leaf, hρ, k0, k1, k2, k3, if_true, if_false, lt_self_iff_false, Matrix.of_apply, Matrix.cons_val, Fin.zero_eta, Fin.mk_one, Fin.reduceFinMk, Fin.isValue]
-    field_simp
-    ring
-  have hE : a.energyFlux D - b.energyFlux D = -(ρ * D) * C16.PressureS2.F s ic ρ x D 2
-      - D * (s.e ic.rho_0 ic.P_0 + ic.u_0 ^ 2 / 2) * C16.PressureS2.F s ic ρ x D 0 := by
-    simp only [C16.PressureS2.F, ha, hb, shockedState, incomingState, State.massFlux, State.momFlux, State.energyFlux, epv_c16, epv_tree, epv_cond, epv_leaf, hρ, k0, k1, k2, k3, if_true, if_false, lt_self_iff_false, Matrix.of_apply, Matrix.cons_val, Fin.zero_eta, Fin.mk_one, Fin.reduceFinMk, Fin.isValue]
-    field_simp
-    ring
   unfold StagnationShock RankineHugoniot
   constructor
   · intro h
